@@ -51,6 +51,24 @@ def sortable_proxy(
                [3, 0]])
 
     """
+    proxy = sortable_ranks(poly, graded=graded, reverse=reverse)
+    # break ties in order of position
+    proxy = numpy.argsort(numpy.argsort(proxy.ravel(), kind="stable"))
+    return proxy.reshape(numpoly.aspolynomial(poly).shape)
+
+
+def sortable_ranks(
+    poly: PolyLike,
+    graded: bool = False,
+    reverse: bool = False,
+) -> numpy.ndarray:
+    """
+    Rank polynomials by leading exponent and then leading coefficient.
+
+    Same as `sortable_proxy`, except that elements that share their leading
+    term also share their rank, such that e.g. ``numpy.argmax`` on the ranks
+    selects the first of several equal elements.
+    """
     poly = numpoly.aspolynomial(poly)
     coefficients = poly.coefficients
     proxy = numpy.tile(-1, poly.shape)
@@ -58,8 +76,8 @@ def sortable_proxy(
 
     for idx in numpoly.glexsort(poly.exponents.T, graded=graded, reverse=reverse):
         indices = numpy.all(largest == poly.exponents[idx], axis=-1)
-        values = numpy.argsort(coefficients[idx][indices])
-        proxy[indices] = numpy.argsort(values) + numpy.max(proxy) + 1
-
-    proxy = numpy.argsort(numpy.argsort(proxy.ravel())).reshape(proxy.shape)
+        if not numpy.any(indices):
+            continue
+        values = numpy.unique(coefficients[idx][indices], return_inverse=True)[1]
+        proxy[indices] = values.ravel() + numpy.max(proxy) + 1
     return proxy
